@@ -27,6 +27,8 @@
 #include <pthread.h>
 #include <sys/syscall.h>
 #include <sys/wait.h>
+#include <sched.h>
+#include <chrono>
 #include <atomic>
 #include <condition_variable>
 #include <memory>
@@ -146,6 +148,9 @@ struct LoopCtx {
     std::thread th;
     bool running = false;
     long tid = 0;
+    std::atomic<bool> returned{false};      // set by the loop's thread after runLoop(kForever) came back
+    bool exit_requested = false;            // orchestrator: exitLoop() was posted
+    bool exit_reported = false;
 };
 
 enum Flavour { F_PERSIST = 0, F_ONESHOT, F_SELF_DISABLE, F_REARM };
@@ -216,42 +221,96 @@ void fail(Case &C, const std::string &key, const std::string &detail) {
     C.failed = true;
 }
 
+struct Case;
+Case *g_case = nullptr;
+void loop_exited_unasked(LoopCtx &L);
+
+//! a task posted to a loop together with its acknowledgement. If the loop's thread left runLoop() although nobody asked it
+//! to, the orchestrator abandons the task (it may still be sitting in the loop's queue and would otherwise be run, with
+//! dangling references, when the loop object is cleaned up) and runs the work itself.
+struct Posted {
+    std::mutex m;
+    std::condition_variable cv;
+    bool done = false;
+    bool abandoned = false;
+    std::function<void()> f;
+};
+
+std::shared_ptr<Posted> post(LoopCtx &L, const std::function<void()> &f) {
+    std::shared_ptr<Posted> p(new Posted);
+    p->f = f;
+    L.loop->runInLoop([p] {
+        std::unique_lock<std::mutex> g(p->m);
+        if (p->abandoned) return;
+        g.unlock();
+        p->f();                 // only the orchestrator abandons, and only while done is false and the loop thread is gone
+        g.lock();
+        p->done = true;
+        p->cv.notify_one();
+    }, "c04");
+    return p;
+}
+
+//! waits for the acknowledgement. The 20 ms timeout is only a polling interval for "did the loop thread leave runLoop()";
+//! no verdict depends on elapsed time.
+void await(LoopCtx &L, const std::shared_ptr<Posted> &p) {
+    std::unique_lock<std::mutex> lk(p->m);
+    for (;;) {
+        if (p->cv.wait_for(lk, std::chrono::milliseconds(20), [&p] { return p->done; })) return;
+        if (L.returned.load() && !L.exit_requested) {
+            // the thread has left runLoop() (its exit drain included, `returned` is stored after it): the task will not run there
+            if (p->done) return;
+            p->abandoned = true;
+            lk.unlock();
+            loop_exited_unasked(L);
+            p->f();
+            return;
+        }
+    }
+}
+
 //! run f on the loop's thread (acknowledged) or directly when the loop is not running
 void on_loop(LoopCtx &L, const std::function<void()> &f) {
     if (!L.running) { f(); return; }
-    Ack a;
-    L.loop->runInLoop([&a, &f] {
-        f();
-        std::lock_guard<std::mutex> g(a.m);
-        a.done = true;
-        a.cv.notify_one();
-    }, "c04");
-    std::unique_lock<std::mutex> lk(a.m);
-    a.cv.wait(lk, [&a] { return a.done; });
+    await(L, post(L, f));
 }
 
-//! two rounds; in each round one task is posted to every running loop and all acknowledgements are awaited. Per loop the
-//! second task is posted after the first one ran, so it runs in a later pass than the one that saw the signal pipe readable.
-//! (posting to all loops before waiting keeps a round cheap when there are two dozen loops)
-void barrier(Case &C) {
-    for (int round = 0; round < 2; ++round) {
-        std::vector<std::unique_ptr<Ack>> acks;
-        for (auto &L : C.loops) {
+//! `rounds` rounds; in each round one task is posted to every running loop and all acknowledgements are awaited. Per loop a
+//! task of round n+1 is posted after the task of round n ran, so it runs in a later pass.
+//! After a synchronous (self-directed) delivery the pipes are written before round 1 is posted: round 1 runs in a pass that saw
+//! the pipe readable, round 2 in a later pass => 2 rounds. After pthread_kill() at a loop thread the handler runs on that
+//! thread at its next return to user mode, i.e. before that thread can run its round-1 task: when round 1 is acknowledged the
+//! pipes are written, and rounds 2 and 3 play the part of the two rounds above => 3 rounds.
+void barrier(Case &C, int rounds = 2);
+void barrier_impl(std::vector<std::unique_ptr<LoopCtx>> &loops, int rounds) {
+    for (int round = 0; round < rounds; ++round) {
+        std::vector<std::pair<LoopCtx *, std::shared_ptr<Posted>>> acks;
+        for (auto &L : loops) {
             if (!L->running) continue;
-            acks.emplace_back(new Ack);
-            Ack *a = acks.back().get();
-            L->loop->runInLoop([a] {
-                std::lock_guard<std::mutex> g(a->m);
-                a->done = true;
-                a->cv.notify_one();
-            }, "c04-barrier");
+            acks.emplace_back(L.get(), post(*L, [] {}));
         }
-        for (auto &a : acks) {
-            std::unique_lock<std::mutex> lk(a->m);
-            Ack *ap = a.get();
-            a->cv.wait(lk, [ap] { return ap->done; });
-        }
+        for (auto &a : acks) await(*a.first, a.second);
     }
+}
+
+void barrier(Case &C, int rounds) { barrier_impl(C.loops, rounds); }
+
+//! the loop's thread left runLoop(kForever) by itself: a violation (its enabled events can never be called again); the
+//! orchestrator joins the thread and from now on runs that loop's operations itself, so the case can be wound up
+void loop_exited_unasked(LoopCtx &L) {
+    if (L.th.joinable()) L.th.join();
+    L.running = false;
+    if (L.exit_reported || !g_case) return;
+    L.exit_reported = true;
+    fail(*g_case, "loop/runLoop-returned-although-nobody-asked-the-loop-to-exit",
+         vh::fmt("the thread of loop L%d (%s) came back from runLoop(kForever) although exitLoop() was never called; its enabled signal events "
+                 "cannot get callbacks any more (last delivery: see the script)", L.idx, L.engine.c_str()));
+}
+
+//! after a barrier: a loop whose thread is gone may still have acknowledged everything from its exit drain
+void check_loops_alive(Case &C) {
+    for (auto &L : C.loops)
+        if (L->running && !L->exit_requested && L->returned.load()) loop_exited_unasked(*L);
 }
 
 int model_count(Case &C, int si) {
@@ -443,7 +502,9 @@ void op_compound(Case &C, LoopCtx &L, const std::vector<MiniOp> &ops) {
 // ------------------------------------------------------------------------------------------------
 // deliveries
 // ------------------------------------------------------------------------------------------------
-enum Via { V_RAISE = 0, V_SIGQUEUE, V_LOOP_RAISE };
+//! V_KILL_LOOP: pthread_kill() from the orchestrator at the thread of loop `loop`, which is idle, i.e. (about to be) blocked
+//! in its back-end wait: the process-level handler then runs ON that loop's thread and interrupts the wait (EINTR)
+enum Via { V_RAISE = 0, V_SIGQUEUE, V_LOOP_RAISE, V_KILL_LOOP };
 
 struct Delivery { int si; int via; int loop; long value; };
 
@@ -564,8 +625,39 @@ bool fatal_to_raise(Case &C, int si) {
     return true;
 }
 
+//! number of the system call the thread is blocked in, from /proc (-1: running / unknown)
+long blocked_syscall(long tid) {
+    char path[64], buf[64];
+    snprintf(path, sizeof path, "/proc/self/task/%ld/syscall", tid);
+    int fd = open(path, O_RDONLY);
+    if (fd < 0) return -1;
+    ssize_t n = read(fd, buf, sizeof buf - 1);
+    close(fd);
+    if (n <= 0) return -1;
+    buf[n] = 0;
+    if (buf[0] < '0' || buf[0] > '9') return -1;     // "running"
+    return atol(buf);
+}
+bool is_wait_syscall(long nr) {
+    return nr == SYS_epoll_wait || nr == SYS_epoll_pwait || nr == 441 /* epoll_pwait2 */ || nr == SYS_select || nr == SYS_pselect6;
+}
+
+void kill_loop_thread(Case &C, const Delivery &d) {
+    LoopCtx &L = *C.loops[d.loop];
+    // the loop has acknowledged everything and is heading for its wait; give it a moment to block there (bounded polling of
+    // /proc, used for the coverage counter only - the delivery is legal and is judged whether or not the thread is blocked yet)
+    bool waiting = false;
+    for (int i = 0; i < 200 && !waiting; ++i) {
+        waiting = is_wait_syscall(blocked_syscall(L.tid));
+        if (!waiting) sched_yield();
+    }
+    vh::counter(waiting ? "deliveries_by_pthread_kill_at_waiting_loop_thread_" + L.engine : std::string("deliveries_by_pthread_kill_loop_thread_not_seen_waiting"));
+    if (pthread_kill(L.th.native_handle(), g_signo[d.si]) != 0) { fprintf(stderr, "VH-FATAL: pthread_kill\n"); abort(); }
+}
+
 void do_raise(Case &C, const Delivery &d) {
     int signo = g_signo[d.si];
+    if (d.via == V_KILL_LOOP) { kill_loop_thread(C, d); return; }
     auto fire = [signo, &d] {
         if (d.via == V_SIGQUEUE) {
             union sigval v; v.sival_ptr = (void *)d.value;
@@ -602,7 +694,7 @@ void deliver(Case &C, const std::vector<Delivery> &ds, Pending *defer = nullptr)
             Ev &e = *C.evs[k];
             if (!(e.alive && e.enabled && e.has(d.si))) continue;
             ++expect[k][d.si]; ++receivers; loops_hit.insert(e.loop);
-            if (e.flavour != F_PERSIST && C.loops[e.loop]->running && !(d.via == V_LOOP_RAISE && d.loop == e.loop)) {
+            if (e.flavour != F_PERSIST && C.loops[e.loop]->running && !((d.via == V_LOOP_RAISE || d.via == V_KILL_LOOP) && d.loop == e.loop)) {
                 C.reaction_may_overlap_handler = true;
                 if (e.flavour != F_ONESHOT) C.reaction_user_driven = true;
                 vh::counter("window_reaction_may_overlap_handler");
@@ -626,13 +718,23 @@ void deliver(Case &C, const std::vector<Delivery> &ds, Pending *defer = nullptr)
         if (receivers >= 2) vh::counter("deliveries_to_several_events");
         if (loops_hit.size() >= 2 && receivers >= 2) C.multi_loop_same_signal_delivery = true;
         if (d.via == V_LOOP_RAISE) vh::counter("deliveries_raised_on_a_loop_thread");
+        if (d.via == V_KILL_LOOP) {
+            vh::counter("deliveries_by_pthread_kill_at_loop_thread");
+            if (loops_hit.count(d.loop)) vh::counter("deliveries_by_pthread_kill_at_loop_thread_with_own_subscriber");
+        }
         if (d.via == V_SIGQUEUE) vh::counter("deliveries_sigqueue");
         for (auto &L : C.loops) if (!L->running && loops_hit.count(L->idx)) vh::counter("deliveries_before_loop_started");
         do_raise(C, d);
     }
     if (ds.size() > 1) { vh::counter("bursts"); vh::counter_max("max_burst", ds.size()); if (ds.size() > 10) vh::counter("bursts_over_one_pipe_read"); }
     if (defer) { defer->ds = ds; defer->expect = expect; defer->was = was; return; }
-    barrier(C);
+    bool by_kill = false;
+    for (auto &d : ds) if (d.via == V_KILL_LOOP) by_kill = true;
+    barrier(C, by_kill ? 3 : 2);
+    check_loops_alive(C);
+    if (C.failed) return;       // a loop thread is gone: reported; the counts of this delivery would only repeat it
+    if (by_kill && ds.size() == 1 && disp_is_sentinel(C.disp[ds[0].si].kind) && g_sent[ds[0].si].last_tid.load() == C.loops[ds[0].loop]->tid)
+        vh::counter("handler_ran_on_loop_thread");
     check_after_deliveries(C, ds, expect, was);
 }
 
@@ -643,13 +745,14 @@ void start_loop(LoopCtx &L) {
     Loop *lp = L.loop;
     LoopCtx *Lp = &L;
     // the thread id is recorded before runLoop(): a signal delivered before the loop started is dispatched in the first pass
-    L.th = std::thread([lp, Lp] { Lp->tid = gettid_(); lp->runLoop(Loop::Mode::kForever); });
+    L.th = std::thread([lp, Lp] { Lp->tid = gettid_(); lp->runLoop(Loop::Mode::kForever); Lp->returned.store(true); });
     L.running = true;
     on_loop(L, [] {});
 }
 void stop_loop(LoopCtx &L) {
     if (!L.running) return;
     Loop *lp = L.loop;
+    L.exit_requested = true;
     lp->runInLoop([lp] { lp->exitLoop(); }, "c04-exit");
     L.th.join();
     L.running = false;
@@ -754,7 +857,7 @@ void reset_globals() {
 // ------------------------------------------------------------------------------------------------
 void random_case(uint64_t idx, vh::Rng &r) {
     reset_globals();
-    Case C; C.rng = &r;
+    Case C; C.rng = &r; g_case = &C;
     C.only_raise = vh::st().args.num("only-raise", 0) != 0;
     const bool badsig = vh::st().args.mode == "badsig";
 
@@ -991,17 +1094,29 @@ void random_case(uint64_t idx, vh::Rng &r) {
             for (int i = 0; i < nd; ++i) {
                 int si = same_sig ? si0 : pick_sig();
                 if (model_count(C, si) == 0 && disp_is_default(C.disp[si].kind)) continue;    // the default action would end the process
-                int via = (int)r.below(10); via = via < 5 ? V_RAISE : via < 7 ? V_SIGQUEUE : V_LOOP_RAISE;
+                int via = (int)r.below(12); via = via < 4 ? V_RAISE : via < 6 ? V_SIGQUEUE : via < 9 ? V_LOOP_RAISE : V_KILL_LOOP;
                 if (C.only_raise && via == V_SIGQUEUE) via = V_RAISE;
-                Delivery d{si, via, (int)r.below(nloops), (long)(r.below(1000000) + 1)};
+                // pthread_kill at a loop thread: single deliveries only (two signals pending on one thread may merge), and not under
+                // TSan (it runs the handler of a foreign signal at a later safe point, which voids the barrier argument)
+                if (via == V_KILL_LOOP && (nd > 1 || C.only_raise)) via = V_RAISE;
+                int target = (int)r.below(nloops);
+                if (via == V_KILL_LOOP && r.chance(2, 3)) {
+                    // prefer a loop that itself has an enabled subscriber: the interrupted loop then has to dispatch the signal too
+                    std::vector<int> cand;
+                    for (auto &e : C.evs) if (e->alive && e->enabled && e->has(si)) cand.push_back(e->loop);
+                    if (!cand.empty()) target = r.pick(cand);
+                }
+                if (via == V_KILL_LOOP && !C.loops[target]->running) via = V_RAISE;
+                Delivery d{si, via, target, (long)(r.below(1000000) + 1)};
                 ds.push_back(d);
                 C.sig.add(5000 + si * 100 + via * 10 + d.loop);
             }
             if (!ds.empty()) {
                 std::string d = ds.size() > 1 ? vh::fmt("burst of %zu:", ds.size()) : std::string("deliver");
                 for (size_t i = 0; i < ds.size() && i < 6; ++i)
-                    d += vh::fmt(" %s(%s%s)", g_signame[ds[i].si], ds[i].via == V_RAISE ? "raise" : ds[i].via == V_SIGQUEUE ? "sigqueue" : "raise on L",
-                                 ds[i].via == V_LOOP_RAISE ? std::to_string(ds[i].loop).c_str() : "");
+                    d += vh::fmt(" %s(%s%s)", g_signame[ds[i].si], ds[i].via == V_RAISE ? "raise" : ds[i].via == V_SIGQUEUE ? "sigqueue" :
+                                 ds[i].via == V_LOOP_RAISE ? "raise on L" : "pthread_kill at the waiting thread of L",
+                                 ds[i].via >= V_LOOP_RAISE ? std::to_string(ds[i].loop).c_str() : "");
                 if (ds.size() > 6) d += " ...";
                 say(C, d);
                 deliver(C, ds);
@@ -1019,7 +1134,7 @@ void random_case(uint64_t idx, vh::Rng &r) {
 // ------------------------------------------------------------------------------------------------
 void enum_case(uint64_t idx, vh::Rng &r) {
     reset_globals();
-    Case C; C.rng = &r;
+    Case C; C.rng = &r; g_case = &C;
     int depth = (int)vh::st().args.num("depth", 5);
     uint64_t nseq = 1; for (int i = 0; i < depth; ++i) nseq *= 7;
     uint64_t code = idx % nseq;
@@ -1072,7 +1187,7 @@ const uint64_t MATRIX_CASES = (uint64_t)D_KINDS_ALL * 5 * 2 * 2 * 2;
 
 void matrix_case(uint64_t idx, vh::Rng &r) {
     reset_globals();
-    Case C; C.rng = &r;
+    Case C; C.rng = &r; g_case = &C;
     uint64_t c = idx % MATRIX_CASES;
     int kind = (int)(c % D_KINDS_ALL); c /= D_KINDS_ALL;
     int flags_sel = (int)(c % 5); c /= 5;
